@@ -24,7 +24,7 @@ TABLE = {"Author": "author", "Post": "post", "Comment": "comment"}
 TO_ONE = {
     "Post": {"author": ("author_id", "Author")},
     "Comment": {"post": ("post_id", "Post"), "writer": ("writer_id", "Author"),
-                "reviewer": ("reviewer_id", "Author")},
+                "co_writer": ("co_writer_id", "Author")},
     "Author": {},
 }
 # rel key -> (target model, fk column on the target row pointing back)
@@ -322,7 +322,7 @@ def gen_data(rng):
     comments = [{"id": i + 1, "body": rng.choice(BODIES),
                  "post_id": rng.choice([p["id"] for p in posts]),
                  "writer_id": rng.choice([None] + [a["id"] for a in authors] * 2),
-                 "reviewer_id": rng.choice([None] + [a["id"] for a in authors] * 2)}
+                 "co_writer_id": rng.choice([None] + [a["id"] for a in authors] * 2)}
                 for i in range(nc)]
     return {"Author": authors, "Post": posts, "Comment": comments}
 
